@@ -20,6 +20,13 @@ class Boom(Exception):
     pass
 
 
+class FalsyCallable(object):
+    """a handler object whose truth value is False"""
+    def __init__(self, f): self.f = f
+    def __call__(self, *a, **k): return self.f(*a, **k)
+    def __len__(self): return 0
+
+
 class C05(Check):
     id = "C05"
     prop_module = "PoxModel.Properties.C05"
@@ -167,12 +174,13 @@ class C05(Check):
         self.unknown_shapes = []
         self.variant = self.detect_variant()
         self.Ev = []
-        def __init__(self, fid=None):
-            self.fid = fid
+        def __init__(self, fid=None, *a, **k):
+            self.fid = fid; self.xa = [list(a), sorted(k.items())]
         for i in range(N_ET):
             base = self.Ev[PARENT[i]] if i in PARENT else rv.Event
             d = {"idx": i}
             if i not in PARENT: d["__init__"] = __init__
+            if i in (1, 4): d["__len__"] = lambda self_: 0          # a falsy event: nothing may test an event's truth value
             self.Ev.append(type("Ev%d" % i, (base,), d))
         self.Point = collections.namedtuple("Point", "a b")
 
@@ -217,15 +225,25 @@ class C05(Check):
 
     def _impl(self, case):
         rv, Ev = self.rv, self.Ev
-        srcs = []
+        srcs, classes = [], {}
         for i, sd in enumerate(case["sources"]):
-            ns = {"_eventMixin_events": True if sd["acceptAll"] else set(Ev[t] for t in sd["declared"])}
-            if sd.get("lazy"): ns["__init__"] = lambda self_: None        # a subclass that never calls EventMixin.__init__
-            srcs.append(type("Src%d" % i, (rv.EventMixin,), ns)())
+            ck = sd.get("cls")
+            if ck is None or ck not in classes:
+                evs = [Ev[t] for t in sd["declared"]]
+                kind = sd.get("kind", "set")
+                decl = True if sd["acceptAll"] else (None if kind == "none" and not evs else
+                                                   {"set": set, "list": list, "tuple": tuple, "frozenset": frozenset, "none": set}[kind](evs))
+                ns = {"_eventMixin_events": decl}
+                if sd.get("lazy"): ns["__init__"] = lambda self_: None        # a subclass that never calls EventMixin.__init__
+                C_ = type("Src%d" % i, (rv.EventMixin,), ns)
+                if ck is not None: classes[ck] = C_
+            else:
+                C_ = classes[ck]                                                # two instances of ONE class: no state may be shared
+            srcs.append(C_())
         base = rv._nextEventID
         scripts = {h: l for h, l in case["scripts"]}
         log, snaps, rmchecks, addchecks, subs, bindchecks, junkchecks = [], {}, [], [], [], [], []
-        calls, funcs, owners, sinks, keep, running, deaths = {}, {}, {}, {}, [], [], []
+        calls, funcs, owners, sinks, keep, running, deaths, argchecks = {}, {}, {}, {}, [], [], [], []
         state = {"fid": 0}
         EMPTY = {"halt": None, "acts": [], "ret": {"k": "none"}}
 
@@ -240,7 +258,7 @@ class C05(Check):
                 hid = h.__func__.hid
             else:
                 hid = h.hid
-            return [prio, hid, bool(once), eid - base, weak]
+            return [int(prio), hid, bool(once), eid - base, weak]
 
         def dump(i):
             return [[k.idx if isinstance(k, type) else str(k), [entry_view(x) for x in l]]
@@ -252,7 +270,8 @@ class C05(Check):
                 if any(pred(e) for e in l): return True
             return False
 
-        def run_handler(hid, event, owner=None):
+        def run_handler(hid, event, owner=None, a_=(), k_={}):
+            argchecks.append([getattr(event, "fid", None), list(a_), sorted(k_.items())])
             if owner is not None: running.append(owner)
             try:
                 return run_handler_(hid, event)
@@ -288,15 +307,18 @@ class C05(Check):
 
         def func_of(hid):                       # plain function, one per hid: strong subscriptions and removal by handler
             if hid not in funcs:
-                def f(event, _hid=hid): return run_handler(_hid, event)
+                if hid % 3 == 0:                      # a callable object that is falsy: nothing may test a handler's truth value
+                    f = FalsyCallable(lambda event, *a_, _hid=hid, **k_: run_handler(_hid, event, None, a_, k_))
+                else:
+                    def f(event, *a_, _hid=hid, **k_): return run_handler(_hid, event, None, a_, k_)
                 f.hid = hid
                 funcs[hid] = f
             return funcs[hid]
 
         def method_of(hid, o):                  # bound method of owner o: weak subscriptions
             if o not in owners:
-                owners[o] = type("Owner", (object,), {})(); owners[o].oid = o
-            def m(self_, event, _hid=hid): return run_handler(_hid, event, getattr(self_, "oid", None))
+                owners[o] = type("Owner", (object,), {"__len__": (lambda self_: 0)} if o % 2 == 0 else {})(); owners[o].oid = o   # even ids: falsy owner
+            def m(self_, event, *a_, _hid=hid, **k_): return run_handler(_hid, event, getattr(self_, "oid", None), a_, k_)
             m.hid = hid
             return types.MethodType(m, owners[o])
 
@@ -310,8 +332,11 @@ class C05(Check):
             if op == "add":
                 et, hid, weak = a["et"], a["hid"], a.get("weak")
                 h = method_of(hid, weak) if weak is not None else func_of(hid)
-                kw = dict(once=a["once"], weak=weak is not None, priority=a["prio"])
-                via = a.get("via", 0) % 5
+                ov = a.get("ov", 0)
+                once_v = ([True, 1, "yes", [0]] if a["once"] else [False, 0, "", None])[ov % 4]        # `once` is only ever tested for truth
+                prio_v = float(a["prio"]) if a.get("pv", 0) % 3 == 1 else (True if (a.get("pv", 0) % 3 == 2 and a["prio"] == 1) else a["prio"])
+                kw = dict(once=once_v, weak=weak is not None, priority=prio_v)
+                via = a.get("via", 0) % 7
                 before = dump(i)
                 try:
                     if via == 1: r = src.addListenerByName("Ev%d" % et, h, **kw)
@@ -320,6 +345,8 @@ class C05(Check):
                     elif via == 4:                                   # event name inferred from the handler's name
                         (h.__func__ if weak is not None else h).__name__ = "_handle_Ev%d" % et
                         r = src.add_listener(h, **kw)
+                    elif via == 5: r = src.addListener(Ev[et], h, once_v, weak is not None, prio_v)              # positional
+                    elif via == 6: r = src.addListenerByName("Ev%d" % et, h, once_v, weak is not None, prio_v)
                     else: r = src.addListener(Ev[et], h, **kw)
                 except Exception as e:
                     addchecks.append([i, et, self._kind(e), before == dump(i)]); raise
@@ -331,7 +358,7 @@ class C05(Check):
                 mname = lambda p_, et: ("_handle_Ev%d" % et) if p_ == 0 else ("_handle_p%d_Ev%d" % (p_, et))
                 ns = {}
                 for p_, et in meths:
-                    def m(self_, event, _hid=hb + 10 * p_ + et): return run_handler(_hid, event, getattr(self_, "oid", None))
+                    def m(self_, event, *a_, _hid=hb + 10 * p_ + et, **k_): return run_handler(_hid, event, getattr(self_, "oid", None), a_, k_)
                     m.hid = hb + 10 * p_ + et
                     ns[mname(p_, et)] = m
                 via = a.get("via", 0) % 6
@@ -350,7 +377,9 @@ class C05(Check):
                 bindchecks.append([i, [t.idx for t, _ in r], [et for p_, et in meths if p_ == q]])
                 return ["pairs", [[t.idx, e - base] for t, e in r]]
             if op == "rmm":
-                return bool(src.removeListeners([(Ev[et], base + eid) for et, eid in a["pairs"]]))
+                ps = [(Ev[et], base + eid) for et, eid in a["pairs"]]
+                cv = a.get("cv", 0) % 3
+                return bool(src.removeListeners(ps if cv == 0 else (tuple(ps) if cv == 1 else (p_ for p_ in ps))))
             if op in ("rmh", "rme", "rmp"):
                 if op == "rmh":
                     arg, scope = handler_for_removal(a["hid"]), a.get("et")
@@ -400,10 +429,15 @@ class C05(Check):
                 snaps[fid] = {"s": i, "et": et, "noerr": a["noerr"], "form": a["form"], "pos": len(log),
                               "snap": [entry_view(x) for x in getattr(src, "_eventMixin_handlers", {}).get(Ev[et], [])], "result": None}
                 f = src.raiseEventNoErrors if a["noerr"] else src.raiseEvent
+                xa = a.get("xa", 0) % 3
+                snaps[fid]["xa"] = xa
                 try:
-                    r = f(Ev[et](fid)) if a["form"] == "inst" else f(Ev[et], fid)
+                    if xa == 0: r = f(Ev[et](fid)) if a["form"] == "inst" else f(Ev[et], fid)
+                    elif xa == 1: r = f(Ev[et](fid), 7, k=8) if a["form"] == "inst" else f(Ev[et], fid, 7, k=8)      # extra arguments
+                    else: r = f(Ev[et](fid), k=8) if a["form"] == "inst" else f(Ev[et], fid=fid, k=8)               # keywords only
                 except Exception as e:
                     snaps[fid]["result"] = ["exc", self._kind(e)]; raise
+                if r is not None: snaps[fid]["evxa"] = getattr(r, "xa", None)
                 res = "none" if r is None else ["event", bool(r.halt)]
                 snaps[fid]["result"] = res
                 return res
@@ -429,7 +463,7 @@ class C05(Check):
         final = [dump(i) for i in range(n)]
         return {"log": log, "frames": frames, "final": final, "count": [sum(len(l) for _, l in f) for f in final],
                 "inited": [hasattr(s_, "_eventMixin_handlers") for s_ in srcs],
-                "snaps": {str(k): v for k, v in snaps.items()}, "rmchecks": rmchecks, "addchecks": addchecks, "drops": drops, "subs": subs, "bindchecks": bindchecks, "deaths": deaths, "junkchecks": junkchecks}
+                "snaps": {str(k): v for k, v in snaps.items()}, "rmchecks": rmchecks, "addchecks": addchecks, "drops": drops, "subs": subs, "bindchecks": bindchecks, "deaths": deaths, "junkchecks": junkchecks, "argchecks": argchecks}
 
     # ------------------------------------------------------------------ model side
     def model_request(self, case):
@@ -483,10 +517,32 @@ class C05(Check):
             if e[0] == "call": calls.setdefault(e[1], []).append((i, e[3], e[2]))
             elif e[0] == "ret": rets.setdefault(e[1], []).append((i, e[2], e[3], e[4]))
         nested = self._nested(log)
-        hids_by_frame = {f_: set(h for _, h, _ in c_) for f_, c_ in calls.items()}
         removing = any(a["op"] in ("rmh", "rme", "rmp", "rmm", "clear", "drop") for a in
                        list(case["ops"]) + [a for _, sl in case["scripts"] for sc_ in sl for a, _ in sc_["acts"]])
-        fired = collections.Counter()          # one-shot subscription -> how often its code ran
+        # Which snapshot entry does each invocation belong to?  Walk the log in time order; every delivery keeps a pointer into its
+        # snapshot.  An entry may be passed over only with an excuse: its (weak) owner was collected while the delivery was running, or
+        # -- on a tree with the one-shot claim -- it is a one-shot entry that has already fired / may have been unsubscribed.
+        claim = bool(self.variant["oncePre"])
+        fired, ptr, matched, bad = collections.Counter(), {}, {}, {}
+        def dead_at(fid_, ent, pos):
+            return ent[4] is not None and any(o == ent[4] and snaps[fid_]["pos"] <= dp <= pos for o, dp in obs["deaths"])
+        def spent(fid_, ent):
+            return claim and ent[2] and (fired[(snaps[fid_]["s"], ent[3])] > 0 or removing)
+        for i, e in enumerate(log):
+            if e[0] != "call": continue
+            fid_, hid = e[1], e[3]
+            t = snaps.get(fid_)
+            if t is None: return "delivery: handler invoked with an event nobody raised"
+            S, k = t["snap"], ptr.get(fid_, 0)
+            while k < len(S):
+                ent = S[k]
+                if ent[1] == hid and not dead_at(fid_, ent, i) and not (claim and ent[2] and fired[(t["s"], ent[3])] > 0): break
+                if not (dead_at(fid_, ent, i) or spent(fid_, ent)): k = len(S) + 1; break
+                k += 1
+            if k >= len(S):
+                bad.setdefault(fid_, True); continue
+            matched.setdefault(fid_, []).append(S[k]); ptr[fid_] = k + 1
+            if S[k][2]: fired[(t["s"], S[k][3])] += 1
         for fid, s in sorted(snaps.items()):
             S, C, R = s["snap"], calls.get(fid, []), rets.get(fid, [])
             want = [e[1] for e in S]
@@ -501,52 +557,45 @@ class C05(Check):
                     return "undeclared: class-form raise of an undeclared event type produced an event"
                 continue
             if any(si != s["s"] for _, _, si in C): return "delivery: handler invoked with an event of another source"
-            # entries whose (weak) owner was collected while this delivery was running are excused: the proxy answers by itself
-            def dead_during(ent, _s=s, _fid=fid):
-                if ent[4] is not None and any(o == ent[4] and pos >= _s["pos"] for o, pos in obs["deaths"]): return True
-                # a tree with the one-shot claim (oncePre) skips a one-shot entry that is not subscribed any more: fired by another
-                # delivery, or unsubscribed by someone
-                return bool(self.variant["oncePre"] and ent[2] and
-                            (removing or any(ent[1] in hs_ for f_, hs_ in hids_by_frame.items() if f_ != _fid)))
-            # an alignment of the invoked handlers with the snapshot in which every skipped entry is excused, and the tail is
-            # either excused too (complete) or cut off by a stop
+            if any(self._stops(r, h) for _, _, r, h in R[:-1]): return "halt: delivery went on after a handler halted it"
+            tail = S[ptr.get(fid, 0):]
+            excused = lambda ent: dead_at(fid, ent, len(log)) or spent(fid, ent)
             halted = bool(R and len(R) == len(C) and self._stops(R[-1][2], R[-1][3]))
             proxy_raised = s["result"] == ["exc", "revent"] or (s["noerr"] and s["result"] == "none")
-            def align(i, j):
-                if j == len(got):
-                    tail = S[i:]
-                    if all(dead_during(e) for e in tail): return []
-                    if halted and (j > 0): return []
-                    if proxy_raised and any(dead_during(e) for e in tail[:1 + next((k for k, e in enumerate(tail) if not dead_during(e)), len(tail))]): return []
-                    return None
-                if i == len(S): return None
-                if got[j] == S[i][1]:
-                    r_ = align(i + 1, j + 1)
-                    if r_ is not None: return [S[i]] + r_
-                if dead_during(S[i]): return align(i + 1, j)
-                return None
-            matched = align(0, 0)
-            if any(self._stops(r, h) for _, _, r, h in R[:-1]): return "halt: delivery went on after a handler halted it"
-            if matched is None:
+            lead = tail[:next((k for k, e in enumerate(tail) if not dead_at(fid, e, len(log))), len(tail))]
+            ok_end = all(excused(e) for e in tail) or halted or (proxy_raised and len(lead) > 0)
+            if fid in bad or not ok_end:
                 if got != want[:len(got)]:
                     kind = "repeat" if len(set(got)) < len(got) and len(set(want)) == len(want) else ("extra" if len(got) > len(want) else "order/skip")
                 else:
                     kind = "skip"
                 return "delivery%s: handlers invoked %s, subscribed at the raise %s (%s)" % ("-reentrant" if nested else "", got, want, kind)
-            for ent in matched:
-                if ent[2]: fired[(s["s"], ent[3])] += 1
+            matched_f = matched.get(fid, [])
             # error suppression
             if s["noerr"] and isinstance(s["result"], list) and s["result"][0] == "exc":
                 return "noerrors: raiseEventNoErrors propagated a handler's %s" % s["result"][1]
             # one-shot / remove-me handlers are not invoked by later raises
             for j, (pos, hid, r, _) in enumerate(R):
-                ent = matched[j]
+                ent = matched_f[j]
                 raised = isinstance(r, list) and r[0] == "exc"
                 if ent[2] or (not raised and self._removes(r)):
                     later = [t["snap"] for f2, t in snaps.items() if t["pos"] > pos and t["s"] == s["s"]] + [l for _, l in obs["final"][s["s"]]]
                     if any(e[3] == ent[3] for l in later for e in l):
                         return ("once: one-shot handler that raised %s is still subscribed" % r[1]) if raised else \
                                "once: a one-shot / remove-me handler is still subscribed after it ran"
+        # what the raiser passes besides the event reaches the handlers (instance form) or the event's constructor (class form) intact
+        want_args = {0: ([], []), 1: ([7], [("k", 8)]), 2: ([], [("k", 8)])}
+        for fid_, a_, k_ in obs["argchecks"]:
+            t = snaps.get(fid_)
+            if t is None: return "delivery: handler invoked with an event nobody raised"
+            exp = want_args[t.get("xa", 0)] if t["form"] == "inst" else ([], [])
+            if [a_, [list(x) for x in k_]] != [exp[0], [list(x) for x in exp[1]]]:
+                return "arguments: handler of a %s-form raise got %s %s, the raiser passed %s %s" % (t["form"], a_, k_, exp[0], exp[1])
+        for fid_, t in snaps.items():
+            if t["form"] == "cls" and t.get("evxa") is not None:
+                exp = want_args[t.get("xa", 0)]
+                if [t["evxa"][0], [list(x) for x in t["evxa"][1]]] != [exp[0], [list(x) for x in exp[1]]]:
+                    return "arguments: event of a class-form raise was constructed with %s, the raiser passed %s" % (t["evxa"], list(exp))
         # a one-shot handler fires at most once, ever (reading R2; also under re-entrant raises)
         for (si, eid), cnt in sorted(fired.items()):
             if cnt > 1: return "once: the code of one-shot subscription %d ran %d times (a re-entrant raise fired it while an outer delivery held it)" % (eid, cnt)
@@ -608,6 +657,7 @@ class C05(Check):
         if failure.startswith("once: one-shot handler that raised"): return "once:handler-raises:still-subscribed"
         if failure.startswith("unsubscribe: subscription"): return "unsubscribe:vanished-without-reason"
         if failure.startswith("order:"): return "order:list-not-sorted"
+        if failure.startswith("arguments:"): return "arguments:not-passed-through"
         if failure.startswith("once: the code of one-shot"): return "once:fired-twice:reentrant-raise"
         if failure.startswith("undeclared: raising a non-event"):
             return "undeclared:non-event-raise:%s:%s" % (failure.rsplit("(", 1)[1].rstrip(")"), "noerr" if "raiseEventNoErrors" in failure else "plain")
